@@ -54,6 +54,10 @@ pub struct EndState {
     /// what the endpoint decided in its last call (for the oracle)
     pub last_read: LastRead,
     pub last_write: LastWrite,
+    /// cumulative outcomes of the endpoint's read side (for the stream-level oracle)
+    pub read_pendings: usize,
+    pub read_errors: usize,
+    pub read_eofs: usize,
 }
 
 #[derive(Default, Debug, Clone, PartialEq)]
@@ -94,6 +98,7 @@ impl Endpoint {
         if s.read_pending_every > 0 && st.read_calls % s.read_pending_every == 0 && !st.read_pended {
             st.read_pended = true;
             st.last_read = LastRead::Pending;
+            st.read_pendings += 1;
             cx.waker().wake_by_ref();
             return Poll::Pending;
         }
@@ -101,15 +106,18 @@ impl Endpoint {
         if let Some(at) = s.read_error_at {
             if st.read_pos >= at {
                 st.last_read = LastRead::Error;
+                st.read_errors += 1;
                 return Poll::Ready(Err(std::io::Error::new(std::io::ErrorKind::ConnectionAborted, "scripted read error")));
             }
         }
         if st.read_pos >= s.source.len() {
             if s.eof {
                 st.last_read = LastRead::Eof;
+                st.read_eofs += 1;
                 return Poll::Ready(Ok((st.read_pos, 0)));
             }
             st.last_read = LastRead::Pending;
+            st.read_pendings += 1;
             return Poll::Pending;
         }
         let chunk = s.read_chunks[st.read_calls % s.read_chunks.len()].max(1);
@@ -387,19 +395,22 @@ pub fn run_sequence(adapter: &str, seed: u64, n_ops: usize) -> (Vec<(String, Str
                 let cap = caps[rng.gen_range(0..caps.len())];
                 let prefill: Vec<u8> = (0..[0usize, 0, 1, 9][rng.gen_range(0..4)]).map(|i| 0xE0 + i as u8).collect();
                 let preinit = [0usize, 0, 1, 5, 4096][rng.gen_range(0..5)];
-                let from_prefix_before = received.len() < prefix.len();
-                let before_inner_calls = ep.st.lock().unwrap().read_calls;
+                let pend_before = ep.st.lock().unwrap().read_pendings;
                 match dut.read(&mut cx, cap, &prefill, preinit) {
+                    // Stream-level oracle: an adapter may coalesce, buffer ahead and report an end-of-stream or an error
+                    // one call later than its inner stream did; it may not lose, duplicate, reorder or invent anything.
                     ReadOutcome::Pending => {
                         let st = ep.st.lock().unwrap();
-                        if st.last_read != LastRead::Pending || st.read_calls == before_inner_calls {
+                        if st.read_pendings == pend_before {
                             problems.push(("read:pending-invented".to_string(), format!("{}: adapter returned Pending although the inner endpoint did not", desc("read"))));
+                        } else if received.len() < prefix.len() + st.read_pos && cap > 0 {
+                            problems.push(("read:pending-while-holding-undelivered-bytes".to_string(), format!("{}: adapter returned Pending with {} byte(s) it already has and did not deliver", desc("read"), prefix.len() + st.read_pos - received.len())));
                         }
                     }
                     ReadOutcome::Err(kind) => {
                         let st = ep.st.lock().unwrap();
-                        if st.last_read != LastRead::Error || st.read_calls == before_inner_calls {
-                            problems.push(("read:error-invented".into(), format!("{}: adapter returned {kind:?} although the inner endpoint did not fail", desc("read"))));
+                        if st.read_errors == 0 {
+                            problems.push(("read:error-invented".into(), format!("{}: adapter returned {kind:?} although the inner endpoint never failed", desc("read"))));
                         } else if kind != std::io::ErrorKind::ConnectionAborted {
                             problems.push(("read:error-kind-changed".into(), format!("{}: inner error ConnectionAborted surfaced as {kind:?}", desc("read"))));
                         }
@@ -414,28 +425,21 @@ pub fn run_sequence(adapter: &str, seed: u64, n_ops: usize) -> (Vec<(String, Str
                             problems.push(("read:filled-beyond-capacity".into(), format!("{}: {} bytes into capacity {cap}", desc("read"), got.len())));
                             break;
                         }
-                        // how many bytes must have been delivered
                         let st = ep.st.lock().unwrap();
-                        let inner_called = st.read_calls != before_inner_calls;
-                        let want_n = if from_prefix_before && !inner_called {
-                            (prefix.len() - received.len()).min(cap)
-                        } else {
-                            match st.last_read {
-                                LastRead::Bytes(n) if inner_called => n,
-                                LastRead::Eof if inner_called => 0,
-                                _ => {
-                                    if cap == 0 {
-                                        0
-                                    } else {
-                                        usize::MAX
-                                    }
-                                }
-                            }
-                        };
-                        drop(st);
-                        if want_n != usize::MAX && got.len() != want_n {
-                            problems.push((format!("read:filled-advanced-by-wrong-count:{}", if got.len() > want_n { "more" } else { "less" }), format!("{}: inner delivered {want_n} bytes, caller's filled region grew by {}", desc("read"), got.len())));
+                        let available = prefix.len() + st.read_pos;
+                        if received.len() + got.len() > available {
+                            problems.push(("read:bytes-invented".into(), format!("{}: {} bytes delivered in total, the prefix and the inner stream have provided {available}", desc("read"), received.len() + got.len())));
+                            break;
                         }
+                        if got.is_empty() && cap > 0 {
+                            // an end-of-stream claim
+                            if st.read_eofs == 0 {
+                                problems.push(("read:eof-invented".into(), format!("{}: adapter reported end of stream (0 bytes into capacity {cap}) although the inner endpoint never did{}", desc("read"), if st.read_errors > 0 { " (it failed: the error was swallowed)" } else { "" })));
+                            } else if received.len() < available {
+                                problems.push(("read:eof-before-all-bytes-were-delivered".into(), format!("{}: end of stream reported with {} byte(s) undelivered", desc("read"), available - received.len())));
+                            }
+                        }
+                        drop(st);
                         let pos = received.len();
                         let want = &expected_stream[pos.min(expected_stream.len())..(pos + got.len()).min(expected_stream.len())];
                         if got != want {
@@ -472,21 +476,29 @@ pub fn run_sequence(adapter: &str, seed: u64, n_ops: usize) -> (Vec<(String, Str
                         }
                     }
                     Poll::Ready(Ok(n)) => {
-                        if n != accepted {
-                            problems.push((format!("write:return-value-differs-from-accepted:{}", if vectored { "vectored" } else { "plain" }), format!("{}: adapter returned {n}, inner accepted {accepted}", desc("write"))));
+                        if n > data.len() {
+                            problems.push(("write:return-value-exceeds-request".into(), format!("{}: adapter returned {n} for {} bytes", desc("write"), data.len())));
                         }
-                        if st.written[before..] != data[..accepted.min(data.len())] {
-                            problems.push(("write:bytes-reordered-or-invented".into(), format!("{}: inner got {:?} want prefix of {:?}", desc("write"), &st.written[before..st.written.len().min(before + 8)], &data[..data.len().min(8)])));
+                        // what the adapter has taken responsibility for so far; the inner stream must always hold a
+                        // prefix of it (an adapter may keep accepted bytes until it is flushed)
+                        sent_accepted.extend_from_slice(&data[..n.min(data.len())]);
+                        if st.written.len() > sent_accepted.len() || st.written[..] != sent_accepted[..st.written.len()] {
+                            let at = st.written.iter().zip(&sent_accepted).position(|(a, b)| a != b).unwrap_or(st.written.len().min(sent_accepted.len()));
+                            problems.push((format!("write:inner-stream-is-not-a-prefix-of-the-accepted-bytes:{}", if vectored { "vectored" } else { "plain" }), format!("{}: adapter has accepted {} bytes in total, the inner stream holds {} and differs at offset {at} (this call: returned {n}, inner took {accepted})", desc("write"), sent_accepted.len(), st.written.len())));
                         }
                     }
                 }
-                sent_accepted = st.written.clone();
             }
             8 => {
                 let before = ep.st.lock().unwrap().flushed;
                 let r = dut.flush(&mut cx);
-                if matches!(r, Poll::Ready(Ok(()))) && ep.st.lock().unwrap().flushed == before {
-                    problems.push(("flush:not-forwarded".into(), desc("flush")));
+                if matches!(r, Poll::Ready(Ok(()))) {
+                    let st = ep.st.lock().unwrap();
+                    if st.flushed == before {
+                        problems.push(("flush:not-forwarded".into(), desc("flush")));
+                    } else if st.written.len() < sent_accepted.len() {
+                        problems.push(("flush:accepted-bytes-not-delivered".into(), format!("{}: flush succeeded, {} accepted byte(s) have not reached the inner stream", desc("flush"), sent_accepted.len() - st.written.len())));
+                    }
                 }
             }
             _ => {
@@ -504,6 +516,38 @@ pub fn run_sequence(adapter: &str, seed: u64, n_ops: usize) -> (Vec<(String, Str
         }
         if !problems.is_empty() {
             break;
+        }
+    }
+    // drain: nothing the inner stream has handed over may be left behind in the adapter
+    if problems.is_empty() {
+        let mut concluded = false;
+        for _ in 0..48 {
+            match dut.read(&mut cx, 4096, &[], 0) {
+                ReadOutcome::Ok { filled_after, .. } => {
+                    if filled_after.is_empty() {
+                        concluded = true;
+                        break;
+                    }
+                    let pos = received.len();
+                    let want = &expected_stream[pos.min(expected_stream.len())..(pos + filled_after.len()).min(expected_stream.len())];
+                    if filled_after[..] != want[..] {
+                        problems.push(("read:bytes-differ-from-fifo".into(), format!("{}: (drain) at stream offset {pos} got {:?} want {:?}", desc("read"), &filled_after[..filled_after.len().min(12)], &want[..want.len().min(12)])));
+                        break;
+                    }
+                    received.extend_from_slice(&filled_after);
+                }
+                // the inner stream itself has nothing more right now / failed: whatever the adapter holds it has to
+                // have delivered before saying so
+                ReadOutcome::Pending | ReadOutcome::Err(_) => {
+                    concluded = true;
+                    break;
+                }
+            }
+        }
+        let st = ep.st.lock().unwrap();
+        let available = prefix.len() + st.read_pos;
+        if concluded && received.len() != available && problems.is_empty() {
+            problems.push(("read:bytes-lost".into(), format!("{}: after draining, {} bytes were delivered, the prefix and the inner stream provided {available}", desc("drain"), received.len())));
         }
     }
     (problems, (reads, writes))
